@@ -22,9 +22,10 @@ is therefore `commute_sound_partial`, which excludes that pair and nothing else.
 covered by `partial_join_commute_sound`: for every existing operation, every fixed relation and every target,
 a reported move is complete, both operations are well-formed where they land, and the rows are those of
 joining at the root - as a multiset always, and as a list (order included) unless the existing operation is
-a Sort.  A join defines no row order; `partial_join_past_sort_is_not_order_exact` shows that in the nested-loop
-reading of the reference semantics list equality really fails for a Sort with the fixed relation on the left,
-so the multiset statement is the strongest true one there.
+a Sort AND the fixed relation is the left operand (with the target as the left, outer operand a stable sort
+commutes with the expansion of each target row: `Lemmas/SortFlatMap.lean`).  A join defines no row order;
+`partial_join_past_sort_is_not_order_exact` shows that in the nested-loop reading of the reference semantics
+list equality really fails in the one remaining case, so the multiset statement is the strongest true one there.
 -/
 import DafRel.Lemmas.Commute
 import DafRel.Lemmas.JoinCommute
